@@ -44,7 +44,10 @@ octet = st.one_of(st.sampled_from([0, 1, 10, 127, 255]), st.integers(0, 255))
 ipv4 = st.builds(lambda a, b, c, d: f"{a}.{b}.{c}.{d}", octet, octet, octet, octet)
 bad_ip = st.one_of(
     st.sampled_from(["", "1.2.3", "1.2.3.4.5", "256.1.1.1", "1.2.3.256", "01.2.3.4", "1.2.3.04", "10.0.0.0/24", "::1", "2001:db8::1",
-                     "localhost", "1.2.3.4 ", " 1.2.3.4", "1.2.3.-4", "1..2.3", "a.b.c.d", "0x1.2.3.4", None]),
+                     "localhost", "1.2.3.4 ", " 1.2.3.4", "1.2.3.-4", "1..2.3", "a.b.c.d", "0x1.2.3.4", None,
+                     # a well-formed quad followed by a line feed / tab, and quads written with non-ASCII decimal digits
+                     "127.0.0.1\n", "10.0.0.1\r\n", "10.0.0.1\t", "\n10.0.0.1", "10.0.0.\u0663", "1\uff12\uff17.0.0.1", "\u0661\u0660.0.0.1"]),
+    st.builds(lambda a, b, c, d, t: f"{a}.{b}.{c}.{d}{t}", octet, octet, octet, octet, st.sampled_from(["\n", "\r", "\x0b", "\x00", "\u2028"])),
     st.builds(lambda a, b, c: f"{a}.{b}.{c}", octet, octet, octet),
     st.builds(lambda a, b, c, d: f"{a}.{b}.{c}.{d}", st.integers(256, 999), octet, octet, octet),
 )
@@ -172,8 +175,12 @@ def yaml_case(draw):
             "local": {"ip_address": draw(ipv4), "hostname": draw(host), "realm": draw(host), "port": draw(port)},
             "peer": {"ip_address": draw(ipv4), "hostname": draw(host), "realm": draw(host), "port": draw(port)},
         }
-        tt = draw(st.sampled_from([None, None, "TCP", "tcp", "SCTP", "sctp", "Sctp"]))
-        if tt is not None:
+        tt = draw(st.sampled_from([None, None, "TCP", "tcp", "SCTP", "sctp", "Sctp", "<null>", "<empty>"]))
+        if tt == "<null>":
+            spec["transport_type"] = None            # `transport_type:` left empty in the file: the optional key names no transport
+        elif tt == "<empty>":
+            spec["transport_type"] = ""
+        elif tt is not None:
             spec["transport_type"] = tt
         specs.append(spec)
     return {"kind": "yaml", "specs": specs}
@@ -205,7 +212,7 @@ def check_yaml(case):
         want_tt = (s.get("transport_type") or "tcp").upper()
         if c.transport_type != want_tt:
             prev = [x.get("transport_type") for x in case["specs"][:i]]
-            why = "default-leaks-from-earlier-entry" if "transport_type" not in s else "named"
+            why = "default-leaks-from-earlier-entry" if not s.get("transport_type") else "named"
             vs.append(V("transport case-normalised, TCP when the entry names none", f"yaml/transport/{why}",
                         f"entry {i}: {c.transport_type} != {want_tt} (earlier entries: {prev})"))
         if c.mode != s["mode"].upper():
@@ -251,7 +258,7 @@ def _collect(shard, seed, n_dict, n_yaml):
     def body2(case):
         status, why, vs = check_yaml(case)
         f = ["yaml", f"yaml-entries={len(case['specs'])}"]
-        tts = ["transport_type" in s for s in case["specs"]]
+        tts = [bool(s.get("transport_type")) for s in case["specs"]]
         if any(a and not b for a, b in zip(tts, tts[1:])):
             f.append("yaml-omitted-after-named")
         col.record(case, vs, nontrivial=len(case["specs"]) >= 2, classes=f)
